@@ -44,7 +44,10 @@ RULE = ("text stream: every truncation of hand-written documents and of tests/fi
         "ResolverErrors raised while a value is COMPLETED (resolve_type of abstract types, lazy iterables failing mid-iteration, custom serialisers) "
         "at object/list/leaf positions; @skip/@include on fields, inline fragments and spreads whose condition only fails at execution time "
         "(root and nested, below lists); numeric extremes (inf, nan, 1e308, 10**400, 2**31, denormals...) as variables and literals for Int/Float/ID/"
-        "Boolean/custom scalars; execution-time argument coercion failures under lists of 2-4 items on all 4 configurations; non-trivial = distinct "
+        "Boolean/custom scalars; execution-time argument coercion failures under lists of 2-4 items on all 4 configurations; DETERMINISTIC class linechars: U+2028 / U+2029 / U+0085 "
+        "(line boundaries for str.splitlines, NOT GraphQL LineTerminators) inside a string, a block string and a comment BEFORE the position of a syntax / "
+        "validation / variable-coercion / field error, VT/FF/FS/GS/RS as non-source characters, the same characters in the index_to_loc / splitLines "
+        "correspondence sample; non-trivial = distinct "
         "(text, operation name, variables, world) whose response has errors, or whose data has depth >= 2")
 ASSUMPTIONS = [
     "resolvers return values their field type can serialise, or raise the library's ResolverError; any other exception "
